@@ -23,6 +23,8 @@ type CheckCfg struct {
 	MaxThreads     int      `json:"max_threads"`
 	MaxSchedPoints int      `json:"max_sched_points"`
 	MaxDecisions   int      `json:"max_decisions"`
+	MaxPreemptions *int     `json:"max_preemptions"`          // quick tier; default 2
+	MaxPreemptionsThorough *int `json:"max_preemptions_thorough"` // default 3
 	QuickSecs      int      `json:"quick_secs"`
 	ThoroughSecs   int      `json:"thorough_secs"`
 	MaxPaths       int      `json:"max_paths"`
@@ -237,6 +239,15 @@ func cmdCheck(args []string) int {
 		}
 		if h.MaxSchedPoints == 0 {
 			h.MaxSchedPoints = 400
+		}
+		h.MaxPreemptions = 2
+		if tierN == 1 {
+			h.MaxPreemptions = 3
+			if cfg.MaxPreemptionsThorough != nil {
+				h.MaxPreemptions = *cfg.MaxPreemptionsThorough
+			}
+		} else if cfg.MaxPreemptions != nil {
+			h.MaxPreemptions = *cfg.MaxPreemptions
 		}
 		if h.MaxDecisions == 0 {
 			h.MaxDecisions = 4000
